@@ -15,6 +15,9 @@ import progs
 import runprop
 from core import Report, build_probe, main_wrapper, probe, tier, seed
 
+import re
+_FLAG_IN_TREE = re.compile(r"/(?:\(\?[-i]+\))+\*\*|\*\*(?:\(\?[-i]+\))+/")
+
 PREFIXES = ["", "金", "é/", "a", "(?i)金", "金/**/", "{é,金}", "<é:1,2>", "a/金.", "**/"]
 FAULTS = ["\\", "{", "{a", "{a,", "{金", "[", "[a", "[a-", "[金-", "[]", "[!]", "<", "<a:", "<a:1,", "<金", "(?", "(?i",
           "(?x)", "**a", "a**", "**金", "金**", "//", "/**/**", "{**}", "<*>", "<a:2,1>", "<a:0,0>", "</>", "{/a,b}",
@@ -94,6 +97,12 @@ def run():
         # generator's own AST assigns to the capturing top-level tokens
         ast = asts.get(t)
         if ast is None or gen.show(ast) != t:
+            continue
+        # a flag written between a tree wildcard and a separator it absorbs is outside the
+        # documented syntax ("flags anywhere except inside a tree wildcard"); wax reads it as part of
+        # the tree wildcard, the reference AST does not: no reference spans for such expressions
+        if _FLAG_IN_TREE.search(t):
+            st["outside_documented_syntax"] = st.get("outside_documented_syntax", 0) + 1
             continue
         mine = [(i + 1, s, n) for i, (_, s, n) in enumerate(gen.capturing_tokens(ast))]
         theirs = [(c["index"], c["start"], c["len"]) for c in caps]
